@@ -139,6 +139,8 @@ def t5_key_shape(ctx) -> None:
             sh = _shape(k.elts[1], f)
             if sh in ("list", "set", "generator"):
                 bad = f"children component `{norm(k.elts[1])}` is a {sh}"
+            elif sh == "int":
+                bad = f"children component `{norm(k.elts[1])}` is a single label, not a tuple of labels (`(x)` is not `(x,)`)"
             s0 = _shape(k.elts[0], f)
             if s0 in ("list", "set", "tuple", "generator"):
                 bad = f"parent component `{norm(k.elts[0])}` is a {s0}, expected a label"
@@ -416,6 +418,14 @@ def w_insertion_discipline(ctx) -> None:
         ctx.ok("W2", "one-way single-child rules record a one-way edge")
     else:
         ctx.violation("W2", f, "one-way single-child rules must record a one-way edge (cycles of them are equivalences)", construct="RuleDBBase.add one-way edge")
+    # ... whatever kind of rule it is: the only way out of add() before that is the rule from a class to itself
+    for r in C.returns_of(f) + [x for x in walk_local(f) if isinstance(x, ast.Raise)]:
+        if edges and r.lineno < edges[0].lineno and not isinstance(r, ast.Raise):
+            gs = {(norm(e), p_) for e, p_ in C.flatten_guards(C.guards(f, r))}
+            kinds = [t for t, p_ in gs if "isinstance(" in t or ".is_" in t or "Verification" in t]
+            if kinds:
+                ctx.violation("W2", r, f"RuleDBBase.add is left under {sorted(kinds)} before the single-child branch: a one-child rule of that kind records no edge in the "
+                              "equivalence database, so a cycle of one-way rules through it is never recognised (its classes stay apart and are pruned as if productive)")
     # iteration and membership look at both stores
     it = P.need_method("RuleDBBase", "__iter__", own=True)
     t = norm(it.node)
